@@ -21,4 +21,7 @@ def run(ctx):
     for v in (2, 3, 4):
         RO.check_rh_emit(ctx, led, v)
         RR.check_from_rh(ctx, led, v)
+        from ..rules_access import check_accessors
+
+        check_accessors(ctx, led, v, rules=("pure",), prefix="C12.pure", only=("rh_vector", "clean_vector", "scores"))
     led.require_min("C12.parse", sum(1 for o in led.obs if o.rule.startswith("C12.parse")), 30, "from_rh_vector obligations")
